@@ -110,6 +110,10 @@ def replay_state(st):
     return bad, n
 
 
+def _group(sts):
+    return [replay_state(st) for st in sts]
+
+
 def run(ctx):
     thorough = ctx.tier == "thorough"
     res = tlc.run("mc/MC_C10", cfg="mc/MC_C10_%s.cfg" % ("thorough" if thorough else "quick"), dump=True, timeout=3400)
@@ -130,7 +134,13 @@ def run(ctx):
         est.fit_adaptive(np.asarray(r0["Bs"], float) / (sts[0]["sys"]["D"] * sts[0]["sys"]["DK"]))
     except Exception as ex:
         ctx.violation("C10.no-error", dict(default_call=True, exc=type(ex).__name__), dict(sys=sts[0]["sys"], Bs=sts[0]["recs"][0]["Bs"]), None, repr(ex)[:200])
-    parts = pmap(replay_state, sts, chunksize=1)
+    # states of the same shape (receptors x sources) run back to back in ONE process, systems with non-negative lower
+    # bounds first: whatever the library keeps between calls meets a different sign pattern of the bounds
+    from ..common import grouped
+    sts.sort(key=lambda st: (len(st["sys"]["A"]), len(st["sys"]["A"][0]), min(st["sys"]["lb"]) < 0, repr(st["sys"]["lb"])))
+    groups = grouped(sts, lambda st: (len(st["sys"]["A"]), len(st["sys"]["A"][0]), repr(st["nu0"]), repr(st["w"])))
+    sts = [st for g in groups for st in g]
+    parts = [r for gp in pmap(_group, groups, chunksize=1) for r in gp]
     for st, (bad, n) in zip(sts, parts):
         for clause, where, exp, obs, r in bad:
             ctx.violation(clause, where, dict(sys=st["sys"], nu0=st["nu0"], w=st["w"], rec={k: v for k, v in r.items() if k != "fgrid"}, fam=st["fam"]), exp, obs)
